@@ -82,7 +82,7 @@ func c10Gen(tier string, seed int64) []fw.Case {
 	for rep := 0; rep < reps; rep++ {
 		for _, role := range bothRoles {
 			for pi, p := range []wire.Params{{}, {Deflate: true}} {
-				for _, b := range []string{"read", "reader-read", "write", "writer-write", "writer-close", "ping", "read-partial-frame", "reader-read-partial-frame", "read-partial-header", "read-partial-ping", "read-pong-blocked", "read-header-tail-buffered", "reader-read-cont-header-buffered"} {
+				for _, b := range []string{"read", "reader-read", "write", "writer-write", "writer-close", "ping", "read-partial-frame", "reader-read-partial-frame", "read-partial-header", "read-partial-ping", "read-pong-blocked", "read-header-tail-buffered", "reader-read-cont-header-buffered", "read-rest-behind-final-block"} {
 					for _, pre := range []string{"none", "ping-interleaved", "concurrent-write-completed", "concurrent-read-completed", "earlier-op-cancelled", "ping-queued-behind", "write-queued-behind", "write-queued-before-blocking"} {
 						if pre == "ping-queued-behind" && b != "write" && b != "writer-write" && b != "writer-close" {
 							continue
@@ -91,6 +91,9 @@ func c10Gen(tier string, seed int64) []fw.Case {
 							continue
 						}
 						if (b == "read-partial-ping" || b == "read-pong-blocked") && pre != "none" && pre != "earlier-op-cancelled" {
+							continue
+						}
+						if b == "read-rest-behind-final-block" && !p.Deflate {
 							continue
 						}
 						for hi, how := range []string{"cancel", "deadline"} {
@@ -518,6 +521,17 @@ func c10Blocked(r *fw.R, d c10Desc) {
 		close(stopReading)
 		<-peerReads
 		peer.Send(wire.Ping(big[:100]))
+		go func() { _, _, err := c.Read(ctx); res <- err }()
+	case "read-rest-behind-final-block":
+		// a compressed message whose DEFLATE stream ends with a final block in the middle of a frame; the rest of
+		// that frame (which carries no data and is skipped) arrives only in part: the read is blocked skipping it
+		def := &wire.Deflater{Takeover: d.Params.SenderTakeover(d.Role == RoleServer)}
+		wp := append(def.Message(big[:2000], 6, wire.EndBFinal), make([]byte, 9000+rng.Intn(60000))...)
+		f := wire.Data(wire.OpBinary, true, wp)
+		f.Rsv1 = true
+		b := peer.Mask(f).Bytes()
+		peer.SendBytes(b[:len(b)-3000-rng.Intn(3000)])
+		time.Sleep(2 * time.Millisecond)
 		go func() { _, _, err := c.Read(ctx); res <- err }()
 	case "read-header-tail-buffered", "reader-read-cont-header-buffered":
 		// the first bytes (two or more, never all) of a frame header arrive in the SAME transport read as the
